@@ -109,6 +109,9 @@ theorem all_models_guarded :
 /-- nobody but `set_random_seed` seeds or overwrites the process-wide generator -/
 theorem no_global_writers : PyxelModel.Generated.C04.globalSeedCalls = [] := by decide
 
+/-- no model creates a private generator without a seed (it would ignore pipeline and model seeds) -/
+theorem no_unseeded_generators : PyxelModel.Generated.C04.unseededGenerators = [] := by decide
+
 /-- every running mode hands its pipeline seed down to where the pipeline runs -/
 theorem all_modes_pass_seed :
     PyxelModel.Generated.C04.modesPassSeed.length = 9 ∧
